@@ -527,6 +527,32 @@ class Evaluator:
         if k == 'index' or (k == 'call' and t.get('n') == 'operator[]'):
             base = t['base'] if k == 'index' else t['args'][0]
             bt = strip(base, casts=True)
+            idx_node = t['idx'] if k == 'index' else t['args'][1]
+            # the array / vector may be reached through a reference parameter or reference local
+            fr_b = fr
+            for _ in range(4):
+                if bt.get('k') == 'param' and not bt.get('foreign') and bt['i'] < len(fr_b['args']) and fr_b['args'][bt['i']][0] == 'alias':
+                    al = fr_b['args'][bt['i']]
+                    bt, fr_b = strip(al[1], casts=True), al[2]
+                elif bt.get('k') == 'local' and P.locals.get((fr_b['id'], bt['id']), ('x',))[0] == 'alias':
+                    al = P.locals[(fr_b['id'], bt['id'])]
+                    bt, fr_b = strip(al[1], casts=True), al[2]
+                else:
+                    break
+            if fr_b is not fr:
+                iv_ = self.E(idx_node, P, fr)
+                if bt.get('k') == 'local':
+                    old = P.locals.get((fr_b['id'], bt['id']), ('unk', 'uninitialised container'))
+                    P.locals[(fr_b['id'], bt['id'])] = ('call', 'elemstore', (old, iv_, v))
+                    return
+                if bt.get('k') == 'member':
+                    path = self.mpath(bt, P, fr_b)
+                    if path:
+                        old = P.mem.get(path, ('sym', path))
+                        P.mem[path] = ('call', 'elemstore', (old, iv_, v))
+                        self.trace.writes.setdefault(path, []).append(loc)
+                        P.events.append(('write', path, loc))
+                        return
             if bt.get('k') == 'member':
                 path = self.mpath(bt, P, fr)
                 if path:
@@ -780,6 +806,11 @@ class Evaluator:
                     return num(0)
                 return num(1)
         target = self.resolve(e, P, fr, obj)
+        if target is None and e.get('opcall') and n == 'operator=' and len(args_e) == 2 and not self.prog.by_q.get(q):
+            # implicitly defined copy / move assignment of a plain struct of the repository: an assignment
+            v_ = self.E(args_e[1], P, fr)
+            self.assign(args_e[0], v_, P, fr, loc)
+            return v_
         if target is None or not self.inline or n in self.opaque or fr['depth'] >= MAX_DEPTH:
             args = tuple(self.E(a, P, fr) for a in args_e)
             self.trace.unknown_calls.append((q, loc))
@@ -1072,6 +1103,8 @@ class Evaluator:
     def ref_or_value(self, a, p, P, fr):
         """argument for parameter p: non-const lvalue references to members / locals are passed as aliases"""
         ty = str(p.get('t', ''))
+        if '(&)[' in ty and 'const' not in ty.split('(&)')[0]:
+            ty = 'T &'      # reference to a (non-const) array: same treatment as any other reference parameter
         if ty.endswith('&') and not ty.endswith('&&') and not ty.startswith('const '):
             tgt = strip(a, casts=True)
             if tgt.get('k') == 'param' and not tgt.get('foreign') and tgt['i'] < len(fr['args']) and fr['args'][tgt['i']][0] == 'alias':
